@@ -63,6 +63,9 @@ def gen_mapping(rnd, desc, einsum=None, holders=None):
             if tree and tree[-1]["t"] == "S" and tree[-1]["comp"] == mems[x[2]]["name"] and rnd.random() < 0.5:
                 tree[-1]["tensors"].append(x[1])
             else:
-                tree.append({"t": "S", "tensors": [x[1]], "comp": mems[x[2]]["name"]})
+                node = {"t": "S", "tensors": [x[1]], "comp": mems[x[2]]["name"]}
+                if mems[x[2]].get("kind") == "Toll":
+                    node["toll"] = True
+                tree.append(node)
     tree.append({"t": "C", "einsum": e["name"], "comp": a["mac"]["name"]})
     return tree
